@@ -565,7 +565,8 @@ let do_solo tokens =
       let at = match kv rest "frozen_at" with Some s -> s | None -> "?" in
       if steps > bound then oracle "[C21]" (Printf.sprintf "thread %s frozen at step %s runs alone for %d steps (bound %d)" tid at steps bound);
       if contains res "panic" then
-        oracle "[C21]" (Printf.sprintf "thread %s frozen at step %s, running alone, ends in %s" tid at res)
+        oracle (if contains res "Exceeding retries" then "[C21]" else "[C03]")
+          (Printf.sprintf "thread %s frozen at step %s, running alone, ends in %s" tid at res)
   | [] -> failwith "bad SOLO"
 
 let do_end tokens =
